@@ -5,6 +5,8 @@ report, no leak) runs for every format selection; the exact model comparison run
 import os, re
 from vlib.engine import Prop, Failure
 from props import sqio_common as S
+from props import c02_msa as M
+from props import msagen as G
 
 hx = S.hx
 FORMATS = ["fasta", "fasta", "fasta", "embl", "uniprot", "genbank", "ddbj", "daemon", "hmmpgmd", "unknown", "unknown",
@@ -122,6 +124,11 @@ class C02(Prop):
         seeds = self.seeds(ctx)
         names = sorted(seeds)
         out = []
+        # alignment files of all ten formats read as sequences (exact comparison with Sqio/MsaSeq.lean on the C01 reader models)
+        tf = G.load_testfiles(ctx.src)
+        pool = [(d, b) for d, lst in sorted(tf.items()) if d != "misc" for _, b in lst if len(b) <= 20000]
+        for c in range(260 if ctx.tier == "quick" else 6000):
+            out.append(M.msa_case(rng, c, pool))
         for c in range(n):
             r = rng.random()
             if c % 10 == 5:
@@ -217,7 +224,7 @@ class C02(Prop):
         f = S.basic_line_checks(case, out, Failure)
         if f:
             return f
-        f = S.monitor_msaseq(case, out) or S.monitor_matrix(case, out)
+        f = S.monitor_msaseq(case, out) or S.monitor_matrix(case, out) or M.monitor(case, out)
         if f:
             return f
         for op, l in zip(case["ops"], out):
